@@ -87,3 +87,15 @@ def crash(exc: BaseException, what: str = '') -> Violation:
 def check(cond, kind, msg=''):
   if not cond:
     raise Violation(kind, msg() if callable(msg) else msg)
+
+
+def reset_module_caches(*modules):
+  """Clears every functools cache defined at module level (process-global state must not leak from case to case)."""
+  for m in modules:
+    for v in list(vars(m).values()):
+      cc = getattr(v, 'cache_clear', None)
+      if callable(cc) and getattr(v, '__module__', None) == m.__name__:
+        try:
+          cc()
+        except Exception:  # pylint: disable=broad-exception-caught
+          pass
